@@ -137,8 +137,13 @@ class Transition:
 
     def args_to_model(self, args_c):
         """concrete args (as sent to replay) back into oracle vocabulary"""
+        from .reldb import Col
         out = {}
         for k, v in args_c.items():
+            if isinstance(v, dict):
+                v = replay.conc_to_model(Col('', '', 'map', False, '', 0), v)
+            elif k == 'payload' and isinstance(v, str):
+                v = replay.conc_to_model(Col('', '', 'bytes', False, '', 0), v)
             out[k] = v
         return out
 
